@@ -165,6 +165,56 @@ def retry_unit(ctx):
     return "returns"
 
 
+@unit("retry.invocations-are-independent", props=["C10"], functions=[(REL, "create_retry"), (REL, "create_retry.<locals>.inner_retry"), (REL, "create_retry.<locals>.inner_retry.<locals>.wrapper")],
+      assumptions=["concrete attempts = 3; the loop runs natively"], min_obligations=2, kind="concrete-parametric")
+def retry_stateless_unit(ctx):
+    """the attempt budget is per INVOCATION of the wrapped function, not per decorated function or per decorator: after an invocation that used up
+    failures, the next invocation of the same wrapper (and of another function wrapped by the same decorator) again gets all its attempts"""
+    class ET(Exception):
+        pass
+
+    env = {"wraps": functools.wraps, "assert_is_instance": lambda *a, **k: None}
+    get(REL, "identity").compile_into(env)
+    create_retry = get(REL, "create_retry", native_loops="all").compile_into(env)
+    retry = create_retry(3, ET)
+    calls = []
+
+    def flaky(tag, fail_first):
+        n = {"k": 0}
+
+        def f():
+            n["k"] += 1
+            calls.append((tag, n["k"]))
+            if n["k"] <= fail_first:
+                raise ET(f"{tag} attempt {n['k']}")
+            return (tag, n["k"])
+
+        return f
+
+    a = flaky("a", 2)
+    wa = retry(a)
+    r1 = wa()                       # fails twice, succeeds on the third attempt
+    b = flaky("b", 2)
+    r2 = retry(b)()                 # another function through the same decorator: again three attempts
+    c = flaky("c", 2)
+    a2 = flaky("a", 5)
+    wa2 = retry(a2)
+    try:
+        wa2()
+        exhausted = None
+    except ET as e:
+        exhausted = e
+    wc = retry(c)
+    r3 = wc()
+    ctx.check("every-invocation-gets-its-own-budget-of-attempts(whatever-failed-before-through-the-same-decorator-or-wrapper)",
+              bool(r1 == ("a", 3) and r2 == ("b", 3) and r3 == ("c", 3)), info=str(calls))
+    ctx.check("an-exhausted-invocation-raises-its-own-last-exception-after-exactly-attempts-tries", bool(exhausted is not None and str(exhausted) == "a attempt 3"), info=str(calls))
+    a3 = flaky("z", 0)
+    wz = retry(a3)
+    ctx.check("a-second-invocation-of-the-same-wrapper-runs-the-function-again(no-result-or-error-is-remembered)", bool(wz() == ("z", 1) and wz() == ("z", 2)))
+    return "ok"
+
+
 from .sysprobe import replay_for as _replay_for  # noqa: E402
 
 REPLAYS = [("retry.*", _replay_for(['C10', 'C04'], 1500))]
